@@ -644,6 +644,8 @@ class Node:
 
         if before is True:
             before = 0  # prepend
+        elif before is False:
+            before = None  # append (note: `False` is an `int` as well)
 
         # Validate `before` first, so a refused call does not leave a
         # registered, but unattached node behind
@@ -781,6 +783,8 @@ class Node:
 
         if before is True:
             before = 0  # prepend
+        elif before is False:
+            before = None  # append (note: `False` is an `int` as well)
 
         target_siblings = new_parent._children
         if target_siblings is None:
